@@ -160,7 +160,7 @@ def strategy(spec, ctx):
 
 def shards(tier):
     n = 16 if tier == 'quick' else 48
-    return [{'examples': 150 if tier == 'quick' else 1500} for _ in range(n)]
+    return [{'examples': 400 if tier == 'quick' else 3000} for _ in range(n)]
 
 
 def run_shard(spec, ctx):
